@@ -1,6 +1,6 @@
 From Coq Require Import String List.
 From GP Require Import Base.Sexp.
-From GP Require Glue.G05 Glue.G17 Glue.G11 Glue.G12 Glue.G15 Glue.G18 Glue.G03 Glue.G07 Glue.G10.
+From GP Require Glue.G05 Glue.G17 Glue.G11 Glue.G12 Glue.G15 Glue.G18 Glue.G03 Glue.G07 Glue.G10 Glue.G14 Glue.G04.
 Import ListNotations.
 Local Open Scope string_scope.
 
@@ -15,4 +15,8 @@ Definition dispatch (prop : string) (c : sexp) : sexp :=
   else if String.eqb prop "C03" then G03.run c
   else if String.eqb prop "C07" then G07.run c
   else if String.eqb prop "C10" then G10.run c
+  else if String.eqb prop "C14" then G14.run_payload c
+  else if String.eqb prop "C01" then G14.run_verify c
+  else if String.eqb prop "C06" then G14.run_sign_steps c
+  else if String.eqb prop "C04" then G04.run c
   else A "unknown-property".
